@@ -33,7 +33,9 @@ def programs(rng, tier):
             P.add(["parse", hexs("".join(tup))])
     # random well-formed strings and their mutations
     nrand = 4000 if tier == "quick" else 60000
-    base_names = ["a", "b", "c", "x_1", "v", "true1", "falsey", "T", "č", "a+b", "{14}", "q.r"]
+    base_names = ["a", "b", "c", "x_1", "v", "true1", "falsey", "T", "č", "a+b", "{14}", "q.r",
+                  # near-keywords: only the exact strings `true` / `false` are constants
+                  "True", "FALSE", "tRuE", "False", "TRUE", "xtrue", "true_", "t", "f", "tru", "fals", "0", "1"]
     for _ in range(nrand):
         depth = rng.choice([1, 2, 3, 4, 5, 6])
         e = X.rand_tree(rng, depth, base_names)
